@@ -1,5 +1,5 @@
 """C14 - String functions operate on characters (code points) and are mutually consistent."""
-import copy, os
+import copy, os, re
 from lib import driver as D
 
 MUTANTS = ["byteLength", "substringBytes", "indexOfBytes", "noBoundsCheck", "negLengthIsRest",
@@ -11,12 +11,13 @@ MODEL = {"quick": ("C14_mc_quick.cfg", 50000), "thorough": ("C14_mc_thorough.cfg
 # tlc -simulate: traces per worker, workers; every trace is one string of 5..12 symbols with PerString cases
 SIM = {"quick": (12, 4), "thorough": (300, 8)}
 SIM_DEPTH = 45
-JUDGE_CHUNK = 120000
 
 
 def run(ctx):
     binary = D.build_harness(ctx, "c14")
     D.stage_spec(ctx)
+    if getattr(ctx, "replay", None):
+        return replay(ctx, binary)
     cfg, floor = MODEL[ctx.tier]
     # roles 1 + 2: the laws of FPStrings on every string of the model, one case per explored transition
     mc = D.model_check(ctx, "C14_MC", cfg, timeout=600)
@@ -27,6 +28,10 @@ def run(ctx):
     # beyond the exhaustive bound: strings of 5..12 symbols drawn by the simulator, cases from the same space
     num, workers = SIM[ctx.tier]
     sim = D.model_check(ctx, "C14_Sim", "C14_sim.cfg", simulate="num=%d" % num, depth=SIM_DEPTH, workers=workers, timeout=600)
+    m = re.search(r"The number of states generated: (\d+)", sim.stdout)   # the simulator reports its states differently
+    if m:
+        ctx.states += int(m.group(1))
+        ctx.transitions += int(m.group(1))
     if len(sim.records) < num * workers * 10:
         raise D.Inconclusive("simulation emitted only %d cases" % len(sim.records))
     cases, seen = [], set()
@@ -44,13 +49,8 @@ def run(ctx):
     obs = D.read_ndjson(ctx.path("obs.ndjson"))
     if len(obs) != n_cases:
         raise D.Inconclusive("harness wrote %d observations for %d cases" % (len(obs), n_cases))
-    # role 3 (in chunks: TLC holds the whole observation file in memory)
-    verdicts = []
-    for n, lo in enumerate(range(0, len(obs), JUDGE_CHUNK)):
-        part = ctx.path("obs-%03d.ndjson" % n)
-        D.write_ndjson(part, obs[lo:lo + JUDGE_CHUNK])
-        verdicts += D.judge(ctx, "C14_Judge", "C14_judge.cfg", part, timeout=900, tag="judge-%03d" % n)
-        os.remove(part)
+    # role 3 (the driver judges large files in chunks)
+    verdicts = D.judge(ctx, "C14_Judge", "C14_judge.cfg", ctx.path("obs.ndjson"), timeout=900)
     D.check_complete(verdicts, obs)
     malformed = [v for v in verdicts if v.get("sig", "").startswith("malformed|")]
     if malformed:
@@ -80,6 +80,39 @@ def run(ctx):
         assumptions=["code points outside the model alphabet are not exercised (upper/lower carry the case mapping of the alphabet only)",
                      "strings longer than 12 code points are not exercised",
                      "matches/replaceMatches are judged by outcome kind only (regular expressions are not modelled)"])
+
+
+def replay(ctx, binary):
+    """Re-execute the case of a replay file against the current tree and judge it again."""
+    import json
+    rec = json.load(open(ctx.replay))
+    if rec.get("property") != "C14" or "observation" not in rec:
+        raise D.Inconclusive("not a C14 replay file: %s" % ctx.replay)
+    D.write_ndjson(ctx.path("replay-obs.ndjson"), [rec["observation"]])
+    D.write_params(ctx, {"ObsFile": ctx.path("replay-obs.ndjson")})
+    cases = D.run_tlc(ctx, "C14_Render", "C14_render.cfg", workers=1).records
+    if len(cases) != 1 or cases[0]["id"] != rec["observation"]["id"]:
+        raise D.Inconclusive("the specification does not render the recorded case (malformed record)")
+    D.write_ndjson(ctx.path("cases.ndjson"), cases)
+    D.run_harness(ctx, binary, ["run", ctx.path("cases.ndjson"), ctx.path("obs.ndjson")])
+    obs = D.read_ndjson(ctx.path("obs.ndjson"))
+    verdicts = D.judge(ctx, "C14_Judge", "C14_judge.cfg", ctx.path("obs.ndjson"))
+    D.check_complete(verdicts, obs)
+    print("REPLAY %s: src=%s out=%s verdict=%s" % (obs[0]["id"], obs[0]["src"], json.dumps(obs[0]["out"])[:300],
+                                                   "ok" if verdicts[0]["ok"] else verdicts[0]["sig"]))
+    # no evidence is written for a replay (finish() would overwrite evidence/C14.json)
+    v = verdicts[0]
+    if v["ok"]:
+        return 0
+    if v["sig"].startswith("malformed|"):
+        raise D.Inconclusive("malformed observation in replay")
+    k = D.match_known(D.load_known(ctx.prop), v["sig"])
+    if k is not None:
+        print("KNOWN-FINDING: property=%s %s [%s]" % (ctx.prop, k["what"], v["sig"]))
+        return 0
+    print("VIOLATION property=%s replay=%s" % (ctx.prop, ctx.replay))
+    print("  signature: %s" % v["sig"])
+    return 1
 
 
 def nontrivial_key(o):
